@@ -77,7 +77,23 @@ func (p *Path) constIntArg(v Value, what string) int {
 	return 0
 }
 
+// namedChoose: a choice that, under vrt.ShareNames, is taken once per name.
+func (p *Path) namedChoose(name string, n int) int {
+	if !p.shareNames {
+		return p.choose(name, n)
+	}
+	if v, ok := p.memo["choose|"+name]; ok {
+		return int(v.(IntV).T.I.Int64())
+	}
+	c := p.choose(name, n)
+	p.memo["choose|"+name] = mkInt(int64(c))
+	return c
+}
+
 func (p *Path) inputName(base string) string {
+	if p.shareNames {
+		return base
+	}
 	p.inputCnt[base]++
 	if n := p.inputCnt[base]; n > 1 {
 		return fmt.Sprintf("%s#%d", base, n)
@@ -126,7 +142,7 @@ func (e *Engine) registerCore() {
 	I["vrt.Choose"] = func(p *Path, a []Value, site ssa.Instruction) Value {
 		name := p.inputName(p.constStrArg(a[0], "vrt.Choose name"))
 		n := p.constIntArg(a[1], "vrt.Choose n")
-		c := p.choose(name, n)
+		c := p.namedChoose(name, n)
 		p.inputs = append(p.inputs, &Input{Name: name, Kind: "choose", Conc: c})
 		return mkInt(int64(c))
 	}
@@ -177,6 +193,24 @@ func (e *Engine) registerCore() {
 	I["vrt.Enter"] = func(p *Path, a []Value, site ssa.Instruction) Value {
 		p.entered = true
 		return nil
+	}
+	I["vrt.ShareNames"] = func(p *Path, a []Value, site ssa.Instruction) Value {
+		p.shareNames = a[0].(BoolV).T.IsTrue()
+		return nil
+	}
+	I["vrt.Shared"] = func(p *Path, a []Value, site ssa.Instruction) Value {
+		seen := map[*Object]bool{}
+		for _, v := range p.variadic(a[0]) {
+			if iv, ok := v.(IfaceV); ok {
+				v = iv.V
+			}
+			p.markShared(v, seen)
+		}
+		return nil
+	}
+	I["vrt.Concurrent"] = func(p *Path, a []Value, site ssa.Instruction) Value {
+		// one request symbolically; natively (race replay) the same closure runs in several goroutines
+		return p.callValue(a[0], nil, site)
 	}
 	I["vrt.Symbolic"] = func(p *Path, a []Value, site ssa.Instruction) Value { return mkBool(true) }
 	I["vrt.SetQuery"] = func(p *Path, a []Value, site ssa.Instruction) Value {
